@@ -63,8 +63,10 @@ func runC01(c *Ctx) {
 	c.Rule("C01.O6", "E2-escape", "the enqueue function only measures and copies its slice parameter (len, copy source, Append source); it never stores it", 1)
 	c.Rule("C01.O7", "E4", "flush: data is taken from element 0 at entry.offset; offset advances by the syscall count under n>0; the entry is popped (index 0) only on the completion edge after releaseToWrite", 2)
 	c.Rule("C01.O8", "E7b,E4", "EINTR and EAGAIN are never handed to teardown or returned as fatal; the EINTR edge re-enters the loop without touching the queue, the EAGAIN edge leaves it untouched", 6)
-	c.Rule("C01.O10", "E4", "coalescing into the queue's tail keeps the entry's (buffer, offset) meaning: when the tail's buffer is re-allocated the whole old buffer is copied to the front of the new one (the entry's offset still counts from the buffer's start)", 1)
+	c.Rule("C01.O10", "E4", "coalescing into the queue's tail keeps the entry's (buffer, offset) meaning: when the tail's buffer is re-allocated the whole old buffer is copied to the front of the new one (the entry's offset still counts from the buffer's start); no length measured on the buffer is used after the buffer was changed", 2)
 	c01TailGrowth(c)
+	c.Rule("C01.O11", "E4", "a kernel write that can be repeated within one call (it sits in a loop) is repeated only behind a test of the previous count, or on data advanced by that count: a short count is never followed by a write of later bytes", 2)
+	c01RepeatedWrite(c)
 	c.Rule("C01.O9", "E3", "a failed syscall.Dup before queuing a file range never reaches a success return", 2)
 
 	core := c.Core()
@@ -1298,9 +1300,118 @@ func c01TailGrowth(c *Ctx) {
 			bad = "the tail's buffer is re-allocated at " + c.Pos(st) + " without copying the old contents"
 		}
 	}
+	// a length or capacity measured on the entry's buffer is not used after the
+	// buffer was changed through the entry (compacted, truncated, replaced)
+	{
+		key2 := fnKey(c.P, fn, "no stale measurement of the tail buffer")
+		var mods []ssa.Instruction
+		for _, b := range fn.Blocks {
+			for _, in := range b.Instrs {
+				if st, ok := in.(*ssa.Store); ok {
+					if c.P.LoadedField(ir.Resolve(st.Addr)) == fBuf {
+						mods = append(mods, in)
+					}
+					if fa, ok := st.Addr.(*ssa.FieldAddr); ok && c.P.FieldKey(fa) == fBuf {
+						if _, fresh := ir.Root(fa.X).(*ssa.Alloc); !fresh {
+							mods = append(mods, in)
+						}
+					}
+				}
+			}
+		}
+		stale := ""
+		nMeas := 0
+		for _, cs := range c.P.CallsNamed(fn, "builtin:len", "builtin:cap") {
+			if cs.In.Parent() != fn {
+				continue
+			}
+			a, isLoad := ir.IsLoad(ir.Resolve(cs.Common.Args[0]))
+			if !isLoad || c.P.LoadedField(ir.Resolve(a)) != fBuf {
+				continue
+			}
+			nMeas++
+			dep := c.dependsOn(fn, cs.Value())
+			for _, m := range mods {
+				if !fi.CanReach(cs.In, m) {
+					continue
+				}
+				vis, _ := fi.Reach([]ssa.Instruction{m}, func(in ssa.Instruction) bool { return in == cs.In })
+				for in := range vis {
+					if in == cs.In {
+						continue
+					}
+					for _, op := range in.Operands(nil) {
+						if *op != nil && dep[*op] {
+							if _, isPhi := in.(*ssa.Phi); !isPhi {
+								stale = "the measurement of the tail buffer at " + c.Pos(cs.In) + " is still used at " + c.Pos(in) + " after the buffer was changed at " + c.Pos(m) + ": the new buffer is sized and filled with a length that is no longer the buffer's, so queued bytes are lost or stale pool bytes are sent"
+							}
+						}
+					}
+				}
+			}
+		}
+		c.Cond(stale == "", "C01.O10", key2, c.FnPos(fn), fmt.Sprintf("%d measurement(s), %d modification(s) of the entry's buffer; no use of a measurement after a modification", nMeas, len(mods)), stale)
+	}
 	if n == 0 && bad == "" {
 		c.OK("C01.O10", key, c.FnPos(fn), "no re-allocation of an existing entry's buffer (growth is left to Append)")
 		return
 	}
 	c.Cond(bad == "", "C01.O10", key, c.FnPos(fn), fmt.Sprintf("%d re-allocation(s): whole old buffer copied to the front", n), bad)
+}
+
+// c01RepeatedWrite: O11.  The kernel may take fewer bytes than offered.  A
+// second kernel write in the same call is sound only when the code has looked
+// at the first count (to stop, or to branch) or offers data that was advanced
+// by it; otherwise the bytes behind a short write overtake the ones it left.
+func c01RepeatedWrite(c *Ctx) {
+	core := c.Core()
+	n := 0
+	for _, kw := range core.KernelWrites {
+		fn := kw.In.Parent()
+		fi := c.P.Info(fn)
+		if !fi.InLoop(kw.In) {
+			continue
+		}
+		call, ok := kw.In.(*ssa.Call)
+		if !ok {
+			continue
+		}
+		n++
+		key := fnKey(c.P, fn, "repeated kernel "+c.P.CalleeName(kw.Common))
+		// the count: component 0 of the result tuple (or the result itself)
+		var seeds []ssa.Value
+		if _, isTuple := call.Type().(*types.Tuple); isTuple {
+			for _, r := range *call.Referrers() {
+				if e, ok := r.(*ssa.Extract); ok && e.Index == 0 {
+					seeds = append(seeds, e)
+				}
+			}
+		} else {
+			seeds = append(seeds, call)
+		}
+		if len(seeds) == 0 {
+			c.Bad("C01.O11", key, c.Pos(call), "the count of the kernel write is discarded although the write is repeated in a loop")
+			continue
+		}
+		dep := c.dependsOn(fn, seeds...)
+		vis, _ := fi.Reach([]ssa.Instruction{call}, func(in ssa.Instruction) bool {
+			i, ok := in.(*ssa.If)
+			return ok && dep[i.Cond]
+		})
+		if !vis[call] {
+			c.OK("C01.O11", key, c.Pos(call), "every way back to the write passes a test of its count")
+			continue
+		}
+		advanced := false
+		for _, a := range call.Call.Args {
+			if dep[a] {
+				advanced = true
+			}
+		}
+		c.Cond(advanced, "C01.O11", key, c.Pos(call), "the data offered next is advanced by the count",
+			"the kernel write at "+c.Pos(call)+" is repeated without looking at the count it returned and on data that does not depend on it: after a short write the next one sends later bytes, which overtake the ones the kernel left (the caller queues the remainder from the summed count)")
+	}
+	if n == 0 {
+		c.OK("C01.O11", "no kernel write on a connection descriptor sits in a loop", "", "nothing to repeat")
+	}
 }
